@@ -306,30 +306,30 @@ def _per_rank_wrappers(db, chk, m):
     for q, per_rank in (("TraceCounters.get_queue_length_time_series", "_get_queue_length_time_series_for_rank"), ("TraceCounters.get_memory_bw_time_series", "_get_memory_bw_time_series_for_rank")):
         f = m.func(q)
         where = m.loc(f)
-        ok = None
-        found = []
-        comps = [n for n in ast.walk(f) if isinstance(n, ast.DictComp)]
-        for c in comps:
-            found.append(ast.unparse(c)[:140])
-            if len(c.generators) == 1 and not c.generators[0].ifs and H.name_id(c.generators[0].iter) == "ranks" and isinstance(c.generators[0].target, ast.Name):
-                rv = c.generators[0].target.id
-                if H.name_id(c.key) == rv and isinstance(c.value, ast.Call) and isinstance(c.value.func, ast.Attribute) and c.value.func.attr == per_rank and \
-                        [ast.unparse(a) for a in c.value.args] == ["t", rv]:
-                    ok = True
-        loops = [n for n in walk_no_nested(f) if isinstance(n, ast.For) and H.name_id(n.iter) == "ranks"]
-        for lp in loops:
-            found.append(ast.unparse(lp)[:140])
-            jumps = [type(x).__name__ for x in ast.walk(lp) if isinstance(x, (ast.Break, ast.Return))]
-            calls = [c for c in ast.walk(lp) if isinstance(c, ast.Call) and isinstance(c.func, ast.Attribute) and c.func.attr == per_rank]
-            rv = H.name_id(lp.target)
-            if jumps:
-                ok = False
-                found.append(f"loop over ranks is left early: {jumps}")
-            elif len(calls) == 1 and [ast.unparse(a) for a in calls[0].args] == ["t", rv]:
-                stores = [n for n in ast.walk(lp) if isinstance(n, ast.Assign) and isinstance(n.targets[0], ast.Subscript) and H.name_id(n.targets[0].slice) == rv]
-                ok = True if stores else ok
-        chk.ob(rule, f"{q}: each requested rank is mapped to the series of that rank (no early exit from the loop over ranks)", ok, where, found=found, accepted="{rank: per_rank(t, rank) for rank in ranks}  (None results dropped afterwards)",
-               why="`break` on the first rank without data silently drops every rank requested after it")
+        # evaluated on three requested ranks of which the middle one has no series (per-rank function hooked)
+        R = [T.P("R0"), T.P("R1"), T.P("R2")]
+        tobj = Obj("t")
+
+        def hook(I, name, pos, kw, node, per_rank=per_rank):
+            if name.endswith(per_rank):
+                I.log("per-rank", node, args=[to_term(x) for x in pos])
+                rk = to_term(pos[1]) if len(pos) > 1 else None
+                return None if rk == R[1] else Obj("series_of_" + T.show(rk))
+            return NotImplemented
+        I = Interp(db, call_hook=hook)
+        runs = [r for r in I.explore(f"{m.name}:{q}", lambda I: {"cls": Obj("cls", cls=(m, "TraceCounters")), "t": tobj, "ranks": list(R)}) if r.raised is None]
+        chk.analysed_add("functions", f"{m.name}:{q}")
+        ok, found = None, []
+        if len(runs) == 1 and isinstance(runs[0].ret, dict):
+            ret = runs[0].ret
+            got = {T.show(to_term(k)): (v.name if isinstance(v, Obj) else T.show(to_term(v))) for k, v in ret.items()}
+            calls = [e["args"] for e in runs[0].events if e["kind"] == "per-rank"]
+            found = [got, f"{len(calls)} per-rank calls"]
+            ok = got == {"$R0": "series_of_$R0", "$R2": "series_of_$R2"} and sorted(T.show(c[1]) for c in calls if len(c) > 1) == ["$R0", "$R1", "$R2"]
+        else:
+            found = [f"{len(runs)} paths", T.show(to_term(runs[0].ret))[:200] if runs else ""]
+        chk.ob(rule, f"{q}: each requested rank is mapped to the series of that rank; only ranks without a series are left out", ok, where, found=found,
+               accepted="ranks [R0, R1 (no series), R2] -> {R0: series(R0), R2: series(R2)}", why="`break` on the first rank without data silently drops every rank requested after it")
         dflt = [v for p_, v, verdict in H.rebinds_of_params(f, ["ranks"])]
         chk.ob(rule, f"{q}: the rank list is replaced only when none was given", all(v == "default-if-none" for _, _, v in H.rebinds_of_params(f, ["ranks"])), where,
                found=[x[1] for x in H.rebinds_of_params(f, ["ranks"])], accepted="if ranks is None or len(ranks) == 0: ranks = [0]")
